@@ -39,7 +39,9 @@ Record universe := mkU {
   u_mods : list node;                        (* module versions in the registry *)
   u_deps : list (node * dep);                (* requirement facts *)
   u_pkgs : list (node * path);               (* package directory facts *)
-  u_imps : list (node * path * import) }.    (* import facts *)
+  u_imps : list (node * path * import);      (* import facts *)
+  u_std : list elem }.                       (* path elements without a dot: an import path
+                                                starting with one is a standard-library package *)
 
 Record mainmod := mkM {
   m_base : path; m_major : N;
@@ -84,7 +86,8 @@ Definition norm_universe (u : universe) : universe :=
   mkU (sort_dedup node_cmp (u_mods u))
       (sort_dedup (lex node_cmp dep_cmp) (u_deps u))
       (sort_dedup (lex node_cmp path_cmp) (u_pkgs u))
-      (sort_dedup (lex (lex node_cmp path_cmp) import_cmp) (u_imps u)).
+      (sort_dedup (lex (lex node_cmp path_cmp) import_cmp) (u_imps u))
+      (sort_dedup N.compare (u_std u)).
 Definition norm_main (m : mainmod) : mainmod :=
   mkM (m_base m) (m_major m) (sort_dedup path_cmp (m_dirs m)) (sort_dedup import_cmp (m_imports m)).
 Definition norm_deps (ds : list dep) : list dep := sort_dedup dep_cmp ds.
@@ -126,7 +129,7 @@ Fixpoint prefixes (p : path) : list path :=
   | e :: r => [] :: map (cons e) (prefixes r)
   end.
 
-Inductive prov := PMain | PExt (n : node).            (* who provides a package *)
+Inductive prov := PMain | PExt (n : node) | PStd.     (* who provides a package *)
 Inductive fres := Found (p : prov) | Missing | Ambig | FetchErr.
 Inductive dstatus := DExplicit (m : N) | DImplicit (m : N) | DNone | DAmbig.
 
@@ -138,7 +141,8 @@ Inductive tres :=
 | TOk (file : list dep)              (* deps of the tidied module.cue *)
 | TErr (missing ambig fetch : bool)  (* which error classes the failing load contains *)
 | TMulti                             (* one module path loaded at two versions: not modelled (BFS order) *)
-| TFuel.
+| TFuel                              (* the resolve loop ran out of fuel *)
+| TIFuel.                            (* an inner computation (package closure, root settling) ran out of fuel *)
 
 Inductive cres := CAccept | CReject | CErr (missing ambig fetch : bool) | CMulti | CFuel.
 
@@ -160,6 +164,9 @@ Section Tidy.
   Definition pkg_imports (n : node) (d : path) : list import :=
     flat_map (imports_of n)
              (filter (fun a => N.eqb (last (fst n ++ a) 0%N) (last (fst n ++ d) 0%N)) (prefixes d)).
+  (* modpkgload.IsStdlibPackage *)
+  Definition is_std (p : path) : bool :=
+    match p with [] => false | e :: _ => existsb (N.eqb e) (u_std u) end.
   Definition main_has (d : path) : bool := existsb (path_eqb d) (m_dirs mm).
 
   (* Requirements.RootSelected (maxRootVersion) *)
@@ -251,7 +258,7 @@ Section Tidy.
     | Some _ => (i, None)
     | None => match find_pkg rs (dep_default n) i with
               | Found (PExt p) => ((fst i, Some (v_major (snd p))), None)
-              | Found PMain => (i, None)
+              | Found _ => (i, None)
               | Missing => (i, None)
               | e => (i, Some e)
               end
@@ -264,6 +271,7 @@ Section Tidy.
     end.
 
   Definition process (rs : reqs) (i : import) : pentry :=
+    if is_std (fst i) then mkPE (Found PStd) None [] else
     match find_pkg rs (main_default rs) i with
     | Found (PExt n) =>
       let dir := skipn (length (fst n)) (fst i) in
@@ -391,14 +399,14 @@ Section Tidy.
     | O => TFuel
     | S f =>
       match load ifuel rs with
-      | None => TFuel
+      | None => TIFuel
       | Some l =>
         let add := to_add rs l in
         let rs1 := mkR (r_roots rs) (new_defaults rs l) in
         match add with
         | [] => finish rs1 l
         | _ => match update_roots ifuel rs1 l add with
-               | None => TFuel
+               | None => TIFuel
                | Some None => TErr false false true
                | Some (Some rs2) => resolve_loop f ifuel rs2
                end
